@@ -63,6 +63,32 @@ def ops : List (String × Op) := [
         match LoopGlue.grelint x rs re st with
         | .inl e => showExc e
         | .inr r => showR showLocation r)),
+  ("goptimize", do
+      let l ← pLoc
+      pure (withLoc l fun x => match LoopGlue.goptimize true x with
+        | .inl e => showExc e
+        | .inr r => showR showLocation r)),
+  ("goptcombine", do
+      let l ← pLoc
+      pure (withLoc l fun x => match LoopGlue.goptimize false x with
+        | .inl e => showExc e
+        | .inr r => showR showLocation r)),
+  ("gisov", do
+      let l ← pLoc
+      pure (withLoc l fun x => match x with
+        | .compound c => showG showBool (Gen.CompoundInterval_is_overlapping (LoopGlue.toCI c))
+        | _ => "ok false")),
+  ("ghasov", do
+      let a ← pLoc; let b ← pLoc
+      pure (withLoc a fun x => withLoc b fun y => match x, y with
+        | .compound c, .single bb sb => showG showBool (Gen.CompoundInterval_has_overlap (LoopGlue.toCI c) (LoopGlue.toSI bb sb))
+        | _, _ => "bad-args ghasov expects a compound and a single location")),
+  ("ggaplist", do
+      let l ← pLoc
+      pure (withLoc l fun x => match LoopGlue.ggaplist x with
+        | .inl e => showExc e
+        | .inr r => showR (fun gs => " ".intercalate (toString gs.length ::
+            gs.map fun g => s!"{g.start} {g.«end»} {strandSym g.strand}")) r)),
   ("spec.bases", do
       let l ← pLoc
       pure (showR showNatList (do let x ← l; pure (Spec.locationBases x))))
